@@ -54,6 +54,8 @@ def corpus(seed, tier):
     ers = gen.eraser_compositions()
     for i, p in enumerate(ers):
         out.append((f'e{i}', p, 1000))
+    for i, (p, lim) in enumerate(gen.REGRESSION_PROVER):
+        out.append((f'g{i}', p, lim))
     dist['eraser_compositions'] = len(ers)
     # leaves of the real tree generator (3x2 .. 2x4, both trees): short closed orbits, near-arithmetic count sequences
     # (after seeded change C03-m1: three of four snapshot counts in arithmetic progression)
